@@ -38,6 +38,9 @@ CLAIM += (' No run() reads a member that randomx_vm::initialize() derives from t
 CLAIM += (' The dataset read of a compiled x86-64 program - the bytes the prologue generator emits for readReg2 ^ readReg3 and the hand-written v1 / v2 / light-mode pieces - executed on terms performs specification 4.6.2 steps 5-8: read at the old ma, mx (v1) or ma (v2) XORed with the zero-extended value, halves swapped, prefetch at the new mx, item number and saved registers in light mode (X86-DSREAD-HSEM).')
 EXPLANATION += ' X86-DSREAD-HSEM.'
 
+CLAIM += (' The two scratchpad addresses of an iteration in the x86-64 back-end are the masked halves of readReg0 ^ readReg1 (generated bytes + hand-written piece on terms), mx and ma for the first iteration; the loop head reads the integer group at the first and the floating-point group at the second, and the end-of-iteration fragments give both registers back (X86-SPMIX-HSEM).')
+EXPLANATION += ' X86-SPMIX-HSEM.'
+
 def run(ctx, R):
     FI = astq.Facts(ctx, 'K0')
     R.saw(config='K0')
@@ -63,6 +66,7 @@ def run(ctx, R):
     x86loop.rule_loopstore(ctx, R)
     x86loop.rule_loopload(ctx, R)
     x86loop.rule_dsread(ctx, R)
+    x86loop.rule_spmix(ctx, R)
     x86loop.rule_dsitem(ctx, R)
     vmcfg.rule_initorder(ctx, R, astq.Facts(ctx, 'K0'))
     x86loop.rule_isa_base(ctx, R)
